@@ -30,8 +30,20 @@ pub fn name() -> impl Strategy<Value = String> {
     prop_oneof![3 => (0usize..10).prop_map(|i| NAMES[i].to_string()), 4 => pick(NAMES)]
 }
 
+/// first tokens of a description that the annotation grammar could read as a continuation of the previous line
+pub const LEADS: &[&str] = &[
+    "|", "&", "?", "[", "<", "+", "-", ":", "@", "#", "(", "{", "=", ",", ".", "*", "!", "~", "`", "\"", "'", "/", "\\", ">", "]", ")", "}", "^", "%", "$", ";", "_", "in", "extends", "and", "or", "keyof", "fun", "nil", "true",
+    "...", "--", "---", "---@", "---|", "[[", "]]", "|+", "|>", "<T>", "[]", "[1]", ": Parent", "1", "0x",
+];
+
 pub fn string() -> impl Strategy<Value = String> {
-    prop_oneof![2 => (0usize..5).prop_map(|i| STRINGS[i].to_string()), 4 => pick(STRINGS), 1 => pick(NAMES)]
+    prop_oneof![
+        2 => (0usize..5).prop_map(|i| STRINGS[i].to_string()),
+        4 => pick(STRINGS),
+        1 => pick(NAMES),
+        1 => pick(LEADS),
+        2 => (pick(LEADS), any::<bool>(), pick(STRINGS)).prop_map(|(a, sp, b)| format!("{a}{}{b}", if sp { " " } else { "" })),
+    ]
 }
 
 /// any JSON value (enum members, const, default, unknown keywords)
